@@ -101,9 +101,9 @@ CHECKS = {
     note="Not covered: arbitrary random byte strings (that is fuzzing, not model-based); the enumerated structural classes and systematic single-byte mutations of valid encodings are. Memory proportionality is judged by the address-space ceiling only. The survey (cluster query) reply path is not driven.",
     ref="4.5, 5/C09"),
  "C05": dict(
-    level="model_checking", technique="TLA+ spec Gossip.tla (Swarm + mesh sender: buckets, union coalescing, pick, FIFO wires, periodic / new-connection full-state gossip, relay, link down/up, peer garbage collection and return; switch GcAsCode for the listed GC finding) model-checked with TLC; TLC-simulated schedules replayed on real broker.Service + cluster.Swarm objects through a transcribed mesh sender; routing tables, replicas, member lists, wire payloads and real forwarded publishes validated by TLC (Gossip_Trace)",
-    text="TLC checks exhaustively (2 brokers / 3 ops, 3 brokers / 2 ops, 2 brokers with a link fault and GC) that in the intended design every broker's routing table equals the set of brokers with a live local subscriber whenever all links are up and nothing is queued or in flight. Simulated schedules (client subscribe/unsubscribe bursts, periodic full-state gossip, per-link pick order, FIFO delivery, relays among 3 brokers, link down, garbage collection of the unreachable peer, link up with the complete-state exchange) are executed on real brokers whose swarms send through a transcription of mesh's gossipSender; at every quiescent point the remote entries of every real trie and the activeness of every replica must equal the model's, every payload put on a wire must carry what the model says, and at the end a real publish on every broker for every ssid must be forwarded to and received by exactly the brokers with a live subscriber. A schedule with a GC step that the intended design rejects is validated again against the model of what the code does (GcAsCode); if that explains it, it is the listed finding gc_peer_return (KNOWN-FINDING), otherwise a violation.",
-    note="2-3 brokers, one client and two ssids per broker; the mesh router itself (topology, TCP, goroutines, multi-hop broadcast trees) is replaced by the transcription; a broker that crashes and restarts under its old name is not modelled.",
+    level="model_checking", technique="TLA+ spec Gossip.tla (Swarm + mesh sender: buckets, union coalescing, pick, FIFO wires, periodic / new-connection full-state gossip, relay, link down/up, peer garbage collection and return, broker restart under the old name; switch GcAsCode for the listed GC / restart findings) model-checked with TLC; TLC-simulated schedules replayed on real broker.Service + cluster.Swarm objects through a transcribed mesh sender; routing tables, replicas, member lists, wire payloads and real forwarded publishes validated by TLC (Gossip_Trace)",
+    text="TLC checks exhaustively (2 brokers / 3 ops, 3 brokers / 2 ops, 2 brokers with a link fault and GC) that in the intended design every broker's routing table equals the set of brokers with a live local subscriber whenever all links are up and nothing is queued or in flight. Simulated schedules (client subscribe/unsubscribe bursts, periodic full-state gossip, per-link pick order, FIFO delivery, relays among 3 brokers, link down, garbage collection of the unreachable peer, link up with the complete-state exchange, replacement of a broker by a new process under the same node name; 4-broker schedules in which one broker holds different coalesced payloads on two links) are executed on real brokers whose swarms send through a transcription of mesh's gossipSender; at every quiescent point the remote entries of every real trie and the activeness of every replica must equal the model's, every payload put on a wire must carry what the model says, and at the end a real publish on every broker for every ssid must be forwarded to and received by exactly the brokers with a live subscriber. A schedule with a GC or restart step that the intended design rejects is validated again against the model of what the code does (GcAsCode); if that explains it, it is the listed finding gc_peer_return / restart_stale_routes (KNOWN-FINDING), otherwise a violation.",
+    note="2-3 brokers, one client and two ssids per broker; the mesh router itself (topology, TCP, goroutines, multi-hop broadcast trees) is replaced by the transcription; the clients of a restarted broker do not subscribe again (their keys would carry new connection ids).",
     ref="A.4, 4.6, 5/C05"),
  "C13": dict(
     level="model_checking", technique="Crdt.tla delta laws (TLC) + delta returned by every real Merge validated in the CRDT traces (Crdt_Trace!DeltaOK); Gossip.tla union coalescing + abstract content of every payload put on a wire by the transcribed mesh sender validated by TLC (Gossip_Trace!TrPick); merge algebra proved with TLAPS (CrdtAlgebra)",
